@@ -119,7 +119,7 @@ def from_xir(xir_prog: xir.Program) -> Program:
                             params.append(float(p))
                         elif isinstance(p, str):
                             # name of a free parameter or of a measured subsystem
-                            params.append(sympy.sympify(p))
+                            params.append(sympy.Symbol(p) if p.isidentifier() else sympy.sympify(p))
                         elif isinstance(p, Iterable):
                             params.append(np.array(_listr(p)))
                         else:
